@@ -12,6 +12,7 @@ import GoDcp.Driver.MinSeqNo
 import GoDcp.Driver.SrcFacts
 import GoDcp.Driver.MembershipPause
 import GoDcp.Driver.MembershipJoin
+import GoDcp.Driver.MembershipSlow
 import GoDcp.Driver.HaMembership
 import GoDcp.Driver.RmE2E
 import GoDcp.Driver.ReadOnly
@@ -19,6 +20,6 @@ import GoDcp.Driver.ReadOnly
 namespace GoDcp.Driver
 
 def allHandlers : List (String × (List String → Option String → Option Out)) :=
-  pureHandlers ++ versionHandlers ++ rollbackHandlers ++ healthHandlers ++ keysHandlers ++ asyncOpHandlers ++ configHandlers ++ lifeHandlers ++ wireHandlers ++ membershipHandlers ++ minSeqNoHandlers ++ srcFactHandlers ++ membershipPauseHandlers ++ membershipJoinHandlers ++ haMembershipHandlers ++ rmE2EHandlers ++ readOnlyHandlers
+  pureHandlers ++ versionHandlers ++ rollbackHandlers ++ healthHandlers ++ keysHandlers ++ asyncOpHandlers ++ configHandlers ++ lifeHandlers ++ wireHandlers ++ membershipHandlers ++ minSeqNoHandlers ++ srcFactHandlers ++ membershipPauseHandlers ++ membershipJoinHandlers ++ membershipSlowHandlers ++ haMembershipHandlers ++ rmE2EHandlers ++ readOnlyHandlers
 
 end GoDcp.Driver
